@@ -1,6 +1,7 @@
 package main
 
 import (
+	"go/token"
 	"encoding/json"
 	"fmt"
 	"os"
@@ -89,6 +90,14 @@ func (r *Run) Execute() int {
 	for _, k := range r.unitsFor() {
 		fn := v.fnByKey[k]
 		if fn == nil {
+			// a contract on an unexported helper is a lemma about code; when the helper is gone (renamed, inlined)
+			// there is nothing left to prove about it, and its callers are verified against what replaced it.
+			// A missing exported function is a missing piece of the API the properties talk about.
+			name := k[strings.LastIndex(k, ".")+1:]
+			if name != "" && !token.IsExported(name) {
+				fmt.Fprintf(os.Stderr, "jvc: note: contract for %s: no such function in package jen any more; ignored (unexported helper)\n", k)
+				continue
+			}
 			undecided = append(undecided, fmt.Sprintf("contract for %s: no such function in package jen", k))
 			continue
 		}
@@ -107,6 +116,9 @@ func (r *Run) Execute() int {
 	reserve := map[string][]*Query{}
 	for _, u := range units {
 		for _, o := range u.Obligations() {
+			if u.bc != nil && u.bc.own != nil && u.bc.own.Flags["synthesized"] && (o.Kind == "frame" || o.Kind == "safe") {
+				continue // a default contract declares no frame and no panic-freedom
+			}
 			// every obligation of a function the property depends on is checked: clause-level property tags name
 			// the clauses that state the property, they do not restrict what is proved (a gap in the tags would
 			// otherwise be a gap in the check)
